@@ -578,6 +578,7 @@ pub fn make(profile: &str, seed: u64, index: u64) -> (Params, Extras) {
             p.net.mtu = 9200;
             p.clients[0].abort_at_us = None;
             if !honest {
+                p.knobs.insert("drain_unplanned".into(), 1);
                 let attack = ALL_ATTACKS[k as usize];
                 let mut attacker_is_client = (index / kinds) % 2 == 0;
                 if attack.client_only() {
